@@ -175,6 +175,12 @@ func (w *World) lastStoresVia(f *ssa.Function, ptr ssa.Value, field string, sel 
 			if fa, ok := st.Addr.(*ssa.FieldAddr); ok && fa.X == ptr && w.exprOf(f, st.Addr).Name == field {
 				return set{w.exprOf(f, st.Val).String(): true}
 			}
+			// a whole-value copy (fc := *c, nc := BaseContext): every field is the source's
+			if st.Addr == ptr {
+				if ld, isLd := st.Val.(*ssa.UnOp); isLd && ld.Op == token.MUL {
+					return set{strings.TrimPrefix(w.exprOf(f, ld.X).String(), "&") + "." + field: true}
+				}
+			}
 		}
 		if x == ptr.(ssa.Instruction) {
 			// the context is created here: the field holds what the constructor copies
